@@ -37,7 +37,10 @@ TLine ==
     /\ e.op = "line"
     /\ ReadLine(e.ln)
     /\ Check(t, l, "RefusalFamily", e.res = "err" => e.fam \in {"dns", "value"})
-    /\ Check(t, l, "Outcome", (rs'.status = "err") <=> (e.res = "err"))
+    \* free choice: a load WITHOUT an origin parameter whose text has put no record into the zone yet
+    \* may return an empty zone or refuse (no origin to publish) - the property is silent about it
+    /\ Check(t, l, "Outcome", IF ~Log[t].og /\ rs'.status = "ok" /\ rs'.zone = <<>> THEN TRUE
+                              ELSE (rs'.status = "err") <=> (e.res = "err"))
     /\ Check(t, l, "OriginLearned", e.res = "err" \/ ~rs'.zoKnown \/ rs'.zone = <<>> \/ e.zorigin = rs'.zo)
     /\ Check(t, l, "OutOfZoneIgnored", e.res = "err" \/ ~Flagged(LogRecs(e.zone)))
     /\ Check(t, l, "CnameAlone", e.res = "err" \/ CnameAloneLog(LogRecs(e.zone)))
